@@ -44,6 +44,32 @@ FACET_ACCESSORS = ('facet_index', 'facet_vertices', 'facet_vertex_keys', 'vertic
                    'opposite_vertex_key')
 
 
+def _slice_up(prog, mod, body, local, depth=0, seen=None):
+    """Backward slice through crate callees, closure captures and - when it ends at a parameter - the arguments at
+    every call site of that function (the apex may be handed to a helper that builds the fan)."""
+    import valueflow
+    seen = seen if seen is not None else set()
+    if (body.q, local) in seen or depth > 3:
+        return []
+    seen.add((body.q, local))
+    leaves = list(valueflow.deep_sources_up(prog, mod, body, local, depth=3))
+    params = {x[1] for x in leaves if x[0] == 'param' and len(x) > 2 and x[2] == body.q}
+    if 1 <= local <= body.nargs:
+        params.add(local)
+    if params and body.kind != 'closure':
+        for cq in sorted(prog.callers.get(body.q, ())):
+            cb = prog.bodies.get(cq)
+            if cb is None or '::tests::' in cq:
+                continue
+            for _, ct in cb.calls():
+                if (ct.resolved or ct.callee) != body.q:
+                    continue
+                for pi in params:
+                    if pi - 1 < len(ct.args) and ct.args[pi - 1].place is not None:
+                        leaves += _slice_up(prog, mod, cb, ct.args[pi - 1].place.local, depth + 1, seen)
+    return leaves
+
+
 def _apex(ctx, cfg, prog, mod):
     """APEX: every cell of the star contains the removed vertex, and the boundary facets are named by (star cell, index of
     the removed vertex in it).  An apex taken from the vertices of those cells must therefore be chosen *with* that
@@ -63,37 +89,14 @@ def _apex(ctx, cfg, prog, mod):
                 continue
             n += 1
             body, local = b, t.args[1].place.local
-            al = mod.aliases(q)
-            # through a closure capture to the parent's local
-            hops = 0
-            while body.kind == 'closure' and hops < 3:
-                hops += 1
-                caps = []
-                for leaf in valueflow.sources(body, al, local):
-                    if leaf[0] == 'place' and leaf[1][0] == 1 and leaf[1][1] and leaf[1][1][0].startswith('^'):
-                        caps.append(leaf[1][1][0][1:])
-                parent = prog.bodies.get(body.parent)
-                if not caps or parent is None:
-                    break
-                found = None
-                for blk in parent.blocks:
-                    for s_ in blk.stmts:
-                        if s_.kind == 'A' and s_.rv.k == 'agg' and s_.rv.raw.get('ak') == 'closure' and s_.rv.raw.get('def') == body.q:
-                            fl = s_.rv.raw.get('fields', [])
-                            if caps[0] in fl and s_.rv.ops[fl.index(caps[0])].place is not None:
-                                found = s_.rv.ops[fl.index(caps[0])].place.local
-                if found is None:
-                    break
-                body, local = parent, found
-                al = mod.aliases(body.q)
-            leaves = valueflow.deep_sources(prog, mod, body, local, depth=3)
+            leaves = _slice_up(prog, mod, body, local)
             acc = sorted({(x[1].callee or x[1].resolved or '').rsplit('::', 1)[-1] for x in leaves if x[0] == 'call'} &
                          set(FACET_ACCESSORS))
             compared = any((x[0] == 'op' and x[1] in ('Eq', 'Ne')) or
                            (x[0] == 'call' and (x[1].callee or x[1].resolved or '').rsplit('::', 1)[-1] in ('eq', 'ne'))
                            for x in leaves) and not acc
             if not acc and not compared:
-                # an (in)equality on the apex value in the body that owns it
+                # an (in)equality on the apex value in the body that builds the fan
                 copies = {local}
                 for blk in body.blocks:
                     for s_ in blk.stmts:
